@@ -16,6 +16,8 @@ From Sakura.Gen Require Import Consts VarRows.
 From Sakura.Spec Require Import SmfSpec TrackSpec.
 From Sakura.Proofs Require Import VlqP WriterP SortP ContainerP ExtP RsvP BlockP LayoutP LogP.
 From Sakura.Proofs Require Import FollowP.
+From Sakura.Spec Require Utf8Spec.
+From Sakura.Proofs Require CmdP.
 From Coq Require Import Lia Permutation.
 Open Scope list_scope.
 Open Scope Z_scope.
@@ -357,6 +359,92 @@ Proof.
   intros t Ht. apply track_inv_push_events; [|exact Ht].
   eapply Forall_impl; [|apply Hf]. intros e He. apply simple_eok, plain_ev_simple, He.
 Qed.
+(* the arms added with the text metas / Port / SysEx: events with a payload *)
+Lemma add_events_inv_eok s f : (forall tp ch, Forall eok (f tp ch)) -> events_inv s -> events_inv (add_events s f).
+Proof.
+  intros Hf H. rewrite add_events_eq. apply inv_upd_cur; [|exact H].
+  intros t Ht. apply track_inv_push_events; [apply Hf|exact Ht].
+Qed.
+Lemma is_char_scalar txt : forallb Utf8.is_char txt = true -> Forall Utf8Spec.scalar txt.
+Proof.
+  intros H. rewrite forallb_forall in H. apply Forall_forall. intros c Hc. specialize (H c Hc).
+  unfold Utf8.is_char in H. unfold Utf8Spec.scalar. lia.
+Qed.
+Lemma meta_text_eok tp ty txt : 0 <= ty < 128 -> ty <> 47 -> forallb Utf8.is_char txt = true ->
+  Forall eok (Cmd.cmd_meta_text tp ty txt).
+Proof.
+  intros Hty H47 Hc. apply is_char_scalar in Hc. rewrite CmdP.meta_text_eq.
+  destruct (CmdP.fit_below_spec txt 128 ltac:(lia)) as [rest [E1 [E2 E3]]].
+  set (p := Utf8Spec.utf8 (Utf8Spec.fit_below 128 txt)) in *.
+  assert (Hb : forallb byte_ok p = true).
+  { apply CmdP.utf8_ok. rewrite E1 in Hc. apply Forall_app in Hc. tauto. }
+  pose proof (CmdP.zlen_nonneg p) as Hp.
+  constructor; [|constructor].
+  unfold eok, event_ok, ev_meta, bytes_ok, data7. cbn [e_type e_data e_v1 e_v2 e_v3]. rewrite Hb.
+  replace (ty =? 47) with false by lia.
+  repeat (apply andb_true_intro; split); try reflexivity; lia.
+Qed.
+Lemma as_u8_byte v : byte_ok (as_u8 v) = true.
+Proof. unfold byte_ok, as_u8. pose proof (Z.mod_pos_bound v 256 ltac:(lia)). lia. Qed.
+Lemma cmd_port_eok tp v : Forall eok (Cmd.cmd_port tp v).
+Proof.
+  constructor; [|constructor]. unfold eok, event_ok, Cmd.cmd_port, ev_meta, bytes_ok, data7. cbn [e_type e_data e_v1 e_v2 e_v3 forallb].
+  rewrite as_u8_byte. reflexivity.
+Qed.
+(* system exclusive events: every byte is `as u8` of something, the length is that of the argument list at most *)
+Lemma sysex_sum_loop_ok : forall vs flag sum,
+  forallb byte_ok (sysex_sum_loop vs flag sum) = true /\ (length (sysex_sum_loop vs flag sum) <= length vs)%nat.
+Proof.
+  induction vs as [|n r IH]; intros flag sum; [split; [reflexivity|apply le_n]|]. cbn [sysex_sum_loop].
+  destruct (flag && (n =? -2)).
+  - destruct (IH false sum) as [A B]. cbn [forallb length]. rewrite as_u8_byte, A. split; [reflexivity|lia].
+  - destruct (n =? -1).
+    + destruct (IH true 0) as [A B]. cbn [length]. split; [exact A|lia].
+    + destruct (IH flag (if flag then sum + n else sum)) as [A B]. cbn [forallb length]. rewrite as_u8_byte, A. split; [reflexivity|lia].
+Qed.
+Lemma map_as_u8_ok vs : forallb byte_ok (map as_u8 vs) = true.
+Proof. induction vs as [|v r IH]; [reflexivity|]. cbn [map forallb]. rewrite as_u8_byte, IH. reflexivity. Qed.
+Lemma ev_sysex_eok time vs cs : zlen vs < 2 ^ 28 -> eok (ev_sysex time vs cs).
+Proof.
+  intros Hl. unfold eok, event_ok, ev_sysex. destruct cs; unfold ev_sysex_raw; cbn [e_type e_data]; unfold bytes_ok.
+  - destruct (sysex_sum_loop_ok vs false 0) as [A B]. rewrite A. unfold zlen in *. cbn [andb]. lia.
+  - rewrite map_as_u8_ok. unfold zlen in *. rewrite map_length. cbn [andb]. lia.
+Qed.
+Lemma cmd_sysex_eok tp args cs : zlen args <= SYSEX_MAX -> Forall eok (Cmd.cmd_sysex tp args cs).
+Proof.
+  intros Hl. unfold Cmd.cmd_sysex. destruct args as [|a0 r]; [constructor|]. constructor; [|constructor].
+  apply ev_sysex_eok. unfold SYSEX_MAX, zlen in *.
+  repeat match goal with |- context [if ?b then _ else _] => destruct b end;
+    rewrite ?app_length; cbn [length] in *; lia.
+Qed.
+Lemma cmd_sysex_reset_eok tp d kind : Forall eok (Cmd.cmd_sysex_reset tp (as_u8 d) kind).
+Proof.
+  unfold Cmd.cmd_sysex_reset. repeat match goal with |- context [if ?b then _ else _] => destruct b end;
+    repeat constructor; unfold eok, event_ok, ev_sysex_raw, bytes_ok; cbn [e_type e_data forallb]; rewrite ?as_u8_byte; reflexivity.
+Qed.
+Lemma cmd_sysex_command_eok tp tag args : Forall eok (Cmd.cmd_sysex_command tp tag args).
+Proof.
+  unfold Cmd.cmd_sysex_command. repeat match goal with |- context [if ?b then _ else _] => destruct b end;
+    repeat constructor; apply ev_sysex_eok; vm_compute; reflexivity.
+Qed.
+Lemma gs_dt1_eok time dev body : zlen body < 1000 -> eok (Cmd.gs_dt1 time dev body).
+Proof.
+  intros Hl. unfold Cmd.gs_dt1. apply ev_sysex_eok. unfold zlen in *. rewrite !app_length. cbn [length]. lia.
+Qed.
+Lemma Ok_inj {A} (a b : A) : Ok a = Ok b -> a = b.
+Proof. intros E; injection E as ->; reflexivity. Qed.
+Lemma cmd_gs_effect_eok tp dev ch tag args evs : Cmd.cmd_gs_effect tp dev ch tag args = Ok evs -> Forall eok evs.
+Proof.
+  unfold Cmd.cmd_gs_effect.
+  destruct (tag =? 0); [intros E; injection E as <-; repeat constructor; apply gs_dt1_eok; vm_compute; reflexivity|].
+  destruct (tag =? 17).
+  { destruct (12 <=? length args)%nat; intros E; apply Ok_inj in E; subst evs; [|constructor].
+    apply Forall_forall. intros e Hin. apply in_map_iff in Hin. destruct Hin as (ic & <- & _).
+    apply gs_dt1_eok. unfold zlen. rewrite app_length. cbn [length]. pose proof (firstn_le_length 12 args). lia. }
+  destruct (tag =? 21); [intros E; injection E as <-; repeat constructor; apply gs_dt1_eok; vm_compute; reflexivity|].
+  destruct ((48 <=? tag) && (tag <=? 64)); [|intros E; injection E as <-; constructor].
+  destruct args as [|a0 r]; [discriminate|]. intros E; injection E as <-. repeat constructor. apply gs_dt1_eok. vm_compute. reflexivity.
+Qed.
 Lemma exec_rpn_direct_inv s nrpn args : events_inv s -> events_inv (exec_rpn_direct s nrpn args).
 Proof.
   intros H. destruct (exec_rpn_direct_cases_plain s nrpn args) as [(f & -> & Hf)|[m ->]];
@@ -470,6 +558,7 @@ Proof.
              | apply exec_time_signature_inv, H
              | apply tempo_change_inv, H
              | apply add_events_inv; [ext_plain|exact H]
+             | apply add_events_inv_eok; [intros; first [apply cmd_port_eok | apply cmd_sysex_reset_eok | apply cmd_sysex_command_eok]|exact H]
              | apply exec_rpn_direct_inv, H
              | apply inv_upd_cur; [intros t0 Ht0; first [destruct w; exact Ht0 | apply track_inv_on_rt; [rsv_ext|exact Ht0]]|exact H]
              | apply add_events_inv; [ext_plain|];
@@ -502,6 +591,17 @@ Proof.
   - (* TDecresc *) destruct (_ <? _); [discriminate|]. intros E; injection E as <-.
     apply inv_upd_cur; [intros t0 Ht0; apply track_inv_on_rt; [rsv_ext|exact Ht0]|exact H].
   - (* TPlay *) intros E. apply (exec_play_events_inv ec s args lineno s' Hec H E).
+  - (* TMetaText *)
+    destruct (_ && _) eqn:G; [|discriminate]. intros E; injection E as <-.
+    apply andb_prop in G. destruct G as [G G4]. apply andb_prop in G. destruct G as [G G3]. apply andb_prop in G. destruct G as [G1 G2].
+    apply add_events_inv_eok; [|exact H]. intros tp _. apply meta_text_eok; [lia|lia|exact G4].
+  - (* TTempoChange *) intros E. apply (exec_tempo_change_inv events_inv) in E; [exact E| | |exact H].
+    + intros s0 v H0. apply tempo_change_inv, H0.
+    + intros s0 f H0. apply inv_upd_cur; [intros t0 Ht0; exact Ht0|exact H0].
+  - (* TSysEx *) intros E. apply exec_sysex_cases in E. destruct E as [[_ [m ->]]|[_ [Hl ->]]]; [apply inv_runtime_error, H|].
+    apply add_events_inv_eok; [|exact H]. intros tp _. apply cmd_sysex_eok, Hl.
+  - (* TGSEffect *) intros E. apply exec_gs_effect_cases in E. destruct E as (evs & Hg & ->).
+    apply add_events_inv_eok; [|exact H]. intros _ _. apply (cmd_gs_effect_eok _ _ _ _ _ _ Hg).
 Qed.
 
 Theorem exec_f_events_inv steps d toks s s' :
@@ -579,14 +679,25 @@ Proof.
   unfold read_def_str. intros H I. repeat brk H;
     injection H as <- <- <- <-; try exact I; apply tb_add_log, I.
 Qed.
+Lemma read_int_args_tb ls s ln vs s' ln' ls' :
+  read_int_args ls s ln = Ok (vs, s', ln', ls') -> TB ls -> TB ls'.
+Proof.
+  unfold read_int_args. intros H I. repeat brk H; injection H as <- <- <- <-. eapply read_args_tokens_tb; eassumption.
+Qed.
+Lemma read_int_command_tb ls ty t1 s ln ot s' ln' ls' :
+  read_int_command ls ty t1 s ln = Ok (ot, s', ln', ls') -> TB ls -> TB ls'.
+Proof.
+  unfold read_int_command. intros H I. repeat brk H; injection H as <- <- <- <-; eapply read_int_args_tb; eassumption.
+Qed.
 Lemma read_ext_command_raw_tb ls ttype argt tag1 tag2 s ln ot s' ln' ls' :
   read_ext_command_raw ls ttype argt tag1 tag2 s ln = Ok (ot, s', ln', ls') -> TB ls -> TB ls'.
 Proof.
   unfold read_ext_command_raw. intros H I. repeat brk H;
     try (injection H as ->; first [eapply read_cc_tb; eassumption | eapply read_command_cc_tb; eassumption
                                   | eapply read_rpn_command_tb; eassumption | eapply read_play_tb; eassumption
-                                  | eapply read_def_str_tb; eassumption]);
-    injection H as <- <- <- <-; try exact I; eapply read_args_tokens_tb; eassumption.
+                                  | eapply read_def_str_tb; eassumption | eapply read_int_command_tb; eassumption]);
+    injection H as <- <- <- <-; try exact I;
+    first [eapply read_args_tokens_tb; eassumption | eapply read_macro_args_tb; eassumption].
 Qed.
 Lemma read_ext_command_tb ls ttype argt tag1 tag2 s ln ot s' ln' ls' :
   read_ext_command ls ttype argt tag1 tag2 s ln = Ok (ot, s', ln', ls') -> TB ls -> TB ls'.
@@ -772,6 +883,16 @@ Proof.
   - (* TDecresc *) destruct (_ <? _); [discriminate|]. intros E; injection E as <-.
     apply (dims_of_dsig s _ (dsig_upd_cur s _) H).
   - (* TPlay *) intros E. apply (exec_play_dims ec s args lineno s' Hec H E).
+  - (* TMetaText *) destruct (_ && _); [|discriminate]. intros E; injection E as <-.
+    apply (dims_of_dsig s _ (dsig_add_events s _) H).
+  - (* TTempoChange *) intros E. apply (exec_tempo_change_inv dims_inv) in E; [exact E| | |exact H].
+    + intros s0 v H0. apply (dims_of_dsig s0 _ (dsig_tempo_change s0 v) H0).
+    + intros s0 f H0. apply (dims_of_dsig s0 _ (dsig_upd_cur s0 _) H0).
+  - (* TSysEx *) intros E. apply exec_sysex_cases in E. destruct E as [[_ [m ->]]|[_ [Hl ->]]].
+    + apply (dims_of_dsig s _ (dsig_add_log s _) H).
+    + apply (dims_of_dsig s _ (dsig_add_events s _) H).
+  - (* TGSEffect *) intros E. apply exec_gs_effect_cases in E. destruct E as (evs & Hg & ->).
+    apply (dims_of_dsig s _ (dsig_add_events s _) H).
 Qed.
 
 Theorem exec_f_dims steps d toks s s' :
